@@ -70,3 +70,11 @@ Proof.
   - split; [intros u Hu; apply L; apply nmem_In; exact Hu|]. unfold ax, a_x, a_xy, a_with_cur; cbn. lia.
 Qed.
 End S.
+
+(* HTS immediately undone by TBC 0 at the same cursor position: the stop set is what it was without that stop — in
+   particular unchanged if there was no stop there (also in the pending-wrap column, where x = columns) *)
+Lemma c18_hts_then_tbc a t : nmem t (a_tabs (a_tbc (a_hts a) None)) = negb (t =? ax a) && nmem t (a_tabs a).
+Proof.
+  unfold a_tbc, a_hts. cbn [N.eqb a_tabs a_with_tabs]. change (ax (a_with_tabs a (nadd (ax a) (a_tabs a)))) with (ax a).
+  rewrite nmem_nrem, nmem_nadd. destruct (N.eqb_spec t (ax a)); cbn; reflexivity.
+Qed.
